@@ -97,6 +97,14 @@ def tasks(tier, seed):
                     out.append({"fn": "cdm", "kwargs": {"direction": direction, "n": n, "species": k, "beta": beta},
                                 "label": f"cdm/{direction}/n={n},species={k},beta={beta}",
                                 "caps": {"max_seconds": 300 if tier == "quick" else 1200, "solver_timeout_ms": 20000, "max_paths": 6000}})
+    for direction in ("parallel", "serial"):
+        for pi, pv in enumerate(PARAMS_CDM):
+            out.append({"fn": "cdm_state", "kwargs": {"direction": direction, "species": len(pv[4]), "beta": 1.0, "params": pi}, "label": f"cdm_state/{direction}/params={pi}",
+                        "caps": {"max_seconds": 240, "solver_timeout_ms": 20000, "max_paths": 6000}})
+        if tier == "thorough":
+            for beta in (1.0, 0.5):
+                out.append({"fn": "cdm_state", "kwargs": {"direction": direction, "species": 2, "beta": beta}, "label": f"cdm_state/{direction}/species=2,beta={beta},params=symbolic",
+                            "logic": "QF_NRA", "caps": {"max_seconds": 300, "solver_timeout_ms": 10000, "max_paths": 6000}})
     return out
 
 
@@ -391,6 +399,77 @@ def cdm(direction, n, species, beta):
     vx.prove(f"C15/cdm/{direction}/no_gain/{lab}", symnp.np_sum(out) <= total_in)
 
 
+# concrete physics for the inductive CDM step (pixels and trap occupancies stay symbolic): beta = 1 keeps the kernel piecewise linear
+# (vg, t, fwc, vth, [tr], [nt], [sigma]) - heavy capture / slow release, light capture / fast release, mixed, three species
+PARAMS_CDM = [
+    (1.0, 1.0, 1.0, 2.0, [5.0, 8.0], [4.5, 4.5], [20.0, 20.0]),
+    (1.0, 1.0, 1.0, 2.0, [0.2, 0.5], [0.05, 0.01], [0.1, 0.3]),
+    (0.5, 2.0, 4.0, 1.0, [0.3, 6.0], [3.0, 0.2], [5.0, 0.5]),
+    (1.0, 1.0, 1.0, 2.0, [5.0, 8.0, 3.0], [4.5, 2.0, 9.0], [20.0, 10.0, 30.0]),
+    (1.0, 0.1, 2.0, 3.0, [1.0], [7.0], [15.0]),
+]
+
+
+def _zeros_shim(real_np_like, first):
+    """Module stand-in whose first `zeros(...)` call returns the prepared trap-occupancy array (later calls are genuine)."""
+    import types
+
+    m = types.ModuleType("vx_np_with_trap_state")
+    state = {"first": first}
+
+    def zeros(shape, *a, **k):
+        if state["first"] is not None:
+            out, state["first"] = state["first"], None
+            if tuple(out.shape) != tuple(shape if isinstance(shape, tuple) else (shape,)):
+                raise vx.Unsupported("trap state shape differs from the kernel's")
+            return out
+        return real_np_like.zeros(shape, *a, **k)
+
+    m.__getattr__ = lambda name: zeros if name == "zeros" else getattr(real_np_like, name)  # type: ignore[attr-defined]
+    return m
+
+
+def cdm_state(direction, species, beta, params=None):
+    """One inductive step of the transfer kernel from an arbitrary valid trap state: two pixels along the transfer direction,
+    trap occupancies arbitrary (>= 0) instead of zero.  Pixel plus trapped charge never grows, nothing becomes negative."""
+    m = importlib.import_module(CDM)
+    n = 2
+    shape = (n, 1) if direction == "parallel" else (1, n)
+    arr = sym_array("a", shape)
+    _nonneg(arr, "signal frame is non-negative")
+    occ = sym_array("occ", (1, species))
+    _nonneg(occ, "trap occupancies are non-negative")
+    b = beta
+    if beta == "sym":
+        b = vx.real("beta")
+        vx.assume((b >= 0) & (b <= 1), "0 <= beta <= 1")
+    if params is not None:
+        vg, t, fwc, vth, tr, nt, sg = PARAMS_CDM[params]
+    else:
+        vg, t, fwc, vth = vx.real("vg"), vx.real("t"), vx.real("fwc"), vx.real("vth")
+        for c, txt in ((vg > 0, "vg > 0"), (t > 0, "t > 0"), (fwc > 0, "fwc > 0"), (vth >= 0, "vth >= 0")):
+            vx.assume(c, txt)
+        tr = [vx.real(f"tr_{k}") for k in range(species)]
+        nt = [vx.real(f"nt_{k}") for k in range(species)]
+        sg = [vx.real(f"sigma_{k}") for k in range(species)]
+        for k in range(species):
+            vx.assume(tr[k] > 0, "tr > 0")
+            vx.assume(nt[k] >= 0, "nt >= 0")
+            vx.assume(sg[k] >= 0, "sigma >= 0")
+    before = symnp.np_sum(arr) + symnp.np_sum(occ)
+    state = occ.copy()
+    with Patch() as p:
+        p.numpy(CDM)
+        p.pyfunc(CDM, "run_cdm_parallel", "run_cdm_serial")
+        p.builtins(CDM, "max")
+        p.attr(m, "np", _zeros_shim(m.np, state), "first np.zeros of the kernel (the trap occupancy) returns an arbitrary valid state")
+        f = m.run_cdm_parallel if direction == "parallel" else m.run_cdm_serial
+        out = f(array=arr.copy(), beta=b, vg=vg, t=t, fwc=fwc, vth=vth, tr=symnp.asarray(tr), nt=symnp.asarray(nt), sigma=symnp.asarray(sg))
+    lab = f"species={species},beta={beta}" + ("" if params is None else f",params={params}")
+    vx.prove(f"C15/cdm_state/{direction}/nonnegative/{lab}", vx.all_of([e >= 0 for e in out.elems()] + [e >= 0 for e in state.elems()]))
+    vx.prove(f"C15/cdm_state/{direction}/pixel_plus_trapped_never_grows/{lab}", symnp.np_sum(out) + symnp.np_sum(state) <= before)
+
+
 # ---------------------------------------------------------------------------------------------
 def replay(oid, kwargs, model, data):
     fn = data["fn"]
@@ -452,6 +531,32 @@ def replay(oid, kwargs, model, data):
         except ValueError:
             return False, {"rejected": True}
         return (abs(k.sum() - 1) > 1e-12 or k[1, 1] < 0), {"kernel": k.tolist()}
+    if fn == "cdm_state":
+        cm = importlib.import_module(CDM)
+        species, direction = kwargs["species"], kwargs["direction"]
+        shape = (2, 1) if direction == "parallel" else (1, 2)
+        a = np.array([g(f"a_{i}") for i in range(2)]).reshape(shape)
+        occ = np.array([[g(f"occ_{k}") for k in range(species)]])
+        b = g("beta") if kwargs["beta"] == "sym" else float(kwargs["beta"])
+        if kwargs.get("params") is not None:
+            pv = PARAMS_CDM[kwargs["params"]]
+            phys = {"vg": pv[0], "t": pv[1], "fwc": pv[2], "vth": pv[3], "tr": np.array(pv[4]), "nt": np.array(pv[5]), "sigma": np.array(pv[6])}
+        else:
+            phys = {"vg": g("vg"), "t": g("t"), "fwc": g("fwc"), "vth": g("vth"), "tr": np.array([g(f"tr_{k}") for k in range(species)]),
+                    "nt": np.array([g(f"nt_{k}") for k in range(species)]), "sigma": np.array([g(f"sigma_{k}") for k in range(species)])}
+        state = occ.copy()
+        f = cm.run_cdm_parallel if direction == "parallel" else cm.run_cdm_serial
+        f = getattr(f, "py_func", f)
+        real_np = cm.np
+        cm.np = _zeros_shim(real_np, state)
+        try:
+            out = f(array=a.copy(), beta=b, **phys)
+        finally:
+            cm.np = real_np
+        det = {"pixels_in": a.ravel().tolist(), "trapped_in": occ.ravel().tolist(), "pixels_out": out.ravel().tolist(), "trapped_out": state.ravel().tolist()}
+        if "/nonnegative/" in oid:
+            return bool((out < 0).any() or (state < 0).any()), det
+        return bool(out.sum() + state.sum() > (a.sum() + occ.sum()) * (1 + 1e-12) + 1e-12), det
     if fn == "cdm":
         from pyxel.models.charge_transfer.cdm import run_cdm_parallel, run_cdm_serial
 
